@@ -33,8 +33,46 @@ def run_rules(pid: str, root: str, tier: str, seed: int) -> Ctx:
     if dyn:
         raise AnalysisError("dynamic features the resolver does not model: " + '; '.join(dyn))
     mod = importlib.import_module(f"twverif.rules.{pid.lower()}")
-    mod.run(ctx)
+    resilient_run(mod, ctx)
     return ctx
+
+
+def resilient_run(mod, ctx):
+    """run the rule module's `run(ctx)` statement by statement: a step that cannot analyse its construct (AnalysisError) is recorded as an undecided
+    obligation and the remaining steps still run, so that a violation a later rule finds is reported (exit 1 takes precedence over exit 2)"""
+    import ast
+    import inspect
+    import textwrap
+    src = textwrap.dedent(inspect.getsource(mod.run))
+    tree = ast.parse(src)
+    fn = tree.body[0]
+    first = inspect.getsourcelines(mod.run)[1]
+    body = []
+    for stmt in fn.body:
+        if isinstance(stmt, (ast.Import, ast.ImportFrom)) or (isinstance(stmt, ast.Expr) and isinstance(stmt.value, ast.Constant)):
+            body.append(stmt)
+            continue
+        handler = ast.ExceptHandler(
+            type=ast.Tuple(elts=[ast.Name(id='__AnalysisError', ctx=ast.Load()), ast.Name(id='NameError', ctx=ast.Load())], ctx=ast.Load()), name='__ex',
+            body=[ast.Expr(ast.Call(func=ast.Name(id='__step_failed', ctx=ast.Load()), args=[ast.Name(id='__ex', ctx=ast.Load()), ast.Constant(stmt.lineno + first - 1)],
+                                    keywords=[]))])
+        body.append(ast.Try(body=[stmt], handlers=[handler], orelse=[], finalbody=[]))
+    fn.body = body
+    ast.fix_missing_locations(tree)
+    ast.increment_lineno(tree, first - 1)
+    failed = []
+
+    def step_failed(ex, lineno):
+        if isinstance(ex, NameError) and not failed:
+            raise ex                    # a genuine bug of the checker, not the consequence of a skipped step
+        failed.append(lineno)
+        what = 'depends on a step that could not be analysed' if isinstance(ex, NameError) else str(ex)
+        ctx.unknown('analysis', f"{mod.__name__.rsplit('.', 1)[1]}.run step at line {lineno}", what, f"{os.path.relpath(mod.__file__, HERE)}:{lineno}", mod.__name__, f"step:{lineno}")
+    ns = dict(mod.__dict__)
+    ns['__AnalysisError'] = AnalysisError
+    ns['__step_failed'] = step_failed
+    exec(compile(tree, mod.__file__, 'exec'), ns)
+    ns['run'](ctx)
 
 
 def main(argv=None) -> int:
